@@ -22,7 +22,7 @@ ASSUMPTIONS = [
     "lines of one list hold disjoint groups of the sorted set (the canonical way devices print long lists)",
 ]
 EXHAUSTIVE = {"quick": True, "thorough": False}
-FLOORS = {"quick": {"patches_simulated": 20000, "commands_parsed": 20000, "multi_line_cases": 10000, "helper_roundtrips": 2000, "block_cases": 10000, "block_cases_with_changed_blocks": 5000, "lag_member_cases": 1500, "lists_spelled_with_blanks": 3000, "long_first_lists": 40, "cases_with_rows_of_another_diff_logic_between_rows_of_the_lists_logic": 2000},
+FLOORS = {"quick": {"patches_simulated": 20000, "commands_parsed": 20000, "multi_line_cases": 10000, "helper_roundtrips": 2000, "block_cases": 10000, "block_cases_with_changed_blocks": 5000, "lag_member_cases": 1500, "lists_spelled_with_blanks": 3000, "long_first_lists": 40, "cases_with_rows_of_another_diff_logic_between_rows_of_the_lists_logic": 2000, "patches_computed_under_an_acl": 5000},
           "thorough": {"patches_simulated": 600000, "commands_parsed": 600000, "multi_line_cases": 300000, "helper_roundtrips": 50000, "block_cases": 300000, "block_cases_with_changed_blocks": 150000, "lag_member_cases": 40000}}
 U_QUICK = [2, 3, 4, 7, 8]
 U_THOROUGH = [2, 3, 4, 7, 8, 10, 11, 20]
@@ -40,8 +40,10 @@ KINDS = {
     "nexus-vlangroup": ("Cisco Nexus 9316", (), "vlan group G1 vlan-list", "cisco", 2),
     "cisco-swtrunk": ("Cisco Catalyst 2960", ("interface GigabitEthernet0/1",), "switchport trunk allowed vlan", "cisco-add", 4),
     "nexus-swtrunk": ("Cisco Nexus 9316", ("interface Ethernet1/1",), "switchport trunk allowed vlan", "cisco-add", 4),
+    "huawei-multi_all-untagged-quidway": ("Huawei Quidway S5300", ("interface GigabitEthernet0/0/1",), "port hybrid untagged vlan", "huawei", 4),  # (universe with VLAN 1, the default VLAN of a hybrid port)
     "cisco-swtrunk-stacked": ("Cisco Catalyst 2960", ("interface GigabitEthernet1/0/1",), "switchport trunk allowed vlan", "cisco-add", 4),  # (a port of a switch stack: three numbers)
 }
+UNIVERSE = {"huawei-multi_all-untagged-quidway": {"quick": [1, 2, 3, 7, 8], "thorough": [1, 2, 3, 4, 7, 8, 10, 11]}}
 # rows that stand AFTER the VLAN lines in the same block on both sides, unchanged: first one that the rulebook diffs with another %diff_logic than the
 # VLAN lines, then one more of the VLAN lines' own logic (so the rows of one logic are not contiguous)
 NEIGHBOURS = {
@@ -180,7 +182,7 @@ def read_command(cmd, prefix, syntax, neg):
 LAG_LINE = "channel-group 1 mode active"
 
 
-def check_case(kind, old_groups, new_groups, acc, lag=None, spaced=None, neigh=False):
+def check_case(kind, old_groups, new_groups, acc, lag=None, spaced=None, neigh=False, acl=False):
     """lag: None | 'leaving' | 'joining' | 'staying' - the port is (also) a member of a port-channel on that side;
     spaced: None | 'old' | 'both' - the device (and the generator) spell the list with a blank after each comma, as some IOS versions print it"""
     from annet.api import _diff_and_patch
@@ -203,11 +205,17 @@ def check_case(kind, old_groups, new_groups, acc, lag=None, spaced=None, neigh=F
         acc.count("cases_with_rows_of_another_diff_logic_between_rows_of_the_lists_logic")
     old = build_tree(path, lo + ([LAG_LINE] if lag in ("leaving", "staying") else []), nb)
     new = build_tree(path, ln + ([LAG_LINE] if lag in ("joining", "staying") else []), nb)
-    w = {"kind": kind, "model": model, "old_groups": old_groups, "new_groups": new_groups, "old_lines": lo, "new_lines": ln, "lag": lag, "spaced": spaced, "neigh": neigh}
+    w = {"kind": kind, "model": model, "old_groups": old_groups, "new_groups": new_groups, "old_lines": lo, "new_lines": ln, "lag": lag, "spaced": spaced, "neigh": neigh, "acl": acl}
     if lag:
         acc.count("lag_member_cases")
+    acl_rules = None
+    if acl:
+        # the front end always hands an ACL over (here one that lets everything through)
+        from annet.annlib.rbparser.acl import compile_acl_text
+        acl_rules = compile_acl_text("~ %global", v.NAME)
+        acc.count("patches_computed_under_an_acl")
     try:
-        _, patch = _diff_and_patch(c01.Dev(hw), old, new, None, None, False)
+        _, patch = _diff_and_patch(c01.Dev(hw), old, new, acl_rules, None, False)
         cmds = [p for p in fmt.cmd_paths(patch)]
     except Exception as e:
         acc.violation("C11/%s/exception-%s" % (kind.split("-")[0], type(e).__name__), "patch computation raised on a VLAN list change", dict(w, error=repr(e)[:300]))
@@ -254,6 +262,7 @@ def run_kind(spec, acc):
     tier, kind = spec["tier"], spec["kind"]
     maxlines = min(KINDS[kind][4], 2 if tier == "quick" else 4)
     U = U_QUICK if tier == "quick" else U_THOROUGH
+    U = UNIVERSE.get(kind, {}).get(tier, U)
     subsets = [[u for i, u in enumerate(U) if m >> i & 1] for m in range(1 << len(U))]
     rng = random.Random("C11/%s/%s/%s" % (spec["seed"], kind, spec["shard"]))
     i = 0
@@ -271,6 +280,8 @@ def run_kind(spec, acc):
                 # (NX-OS keeps switchport lines on port-channel members; the Catalyst logic drops them by design: members inherit them)
                 if KINDS[kind][3].startswith("cisco") and i % 3 == 1:
                     check_case(kind, a, b, acc, spaced=("old", "both")[(i // 3) % 2])
+                if i % 4 == 1:
+                    check_case(kind, a, b, acc, acl=True)
                 if kind in NEIGHBOURS and i % 3 == 2:
                     check_case(kind, a, b, acc, neigh=True)
                 if kind == "nexus-swtrunk" and i % 2 == 0:
@@ -515,7 +526,7 @@ def run_shard(spec, acc):
             back = lambda side: (side[0], {int(k): v for k, v in side[1].items()})
             check_blocks_case(w["kind"], back(w["old_side"]), back(w["new_side"]), acc)
             return
-        check_case(w["kind"], w["old_groups"], w["new_groups"], acc, lag=w.get("lag"), spaced=w.get("spaced"), neigh=bool(w.get("neigh")))
+        check_case(w["kind"], w["old_groups"], w["new_groups"], acc, lag=w.get("lag"), spaced=w.get("spaced"), neigh=bool(w.get("neigh")), acl=bool(w.get("acl")))
         return
     if spec["mode"] == "blocks":
         return run_blocks(spec, acc)
